@@ -239,6 +239,33 @@ pub fn corpus_files() -> Vec<(String, String)> {
     out
 }
 
+/// Source snippets embedded as raw strings (r#"..."#) in the repository's own parser / checker tests: they cover the rarely
+/// used constructs (VAR_ACCESS, VAR_CONFIG, properties, actions, namespaces, ...) that few .st files contain.
+pub fn test_snippets() -> Vec<(String, String)> {
+    let mut out = Vec::new();
+    for dir in ["/repo/crates/trust-syntax/tests", "/repo/crates/trust-hir/tests"] {
+        let Ok(rd) = std::fs::read_dir(dir) else { continue };
+        let mut files: Vec<_> = rd.flatten().map(|e| e.path()).filter(|p| p.extension().map(|e| e == "rs").unwrap_or(false)).collect();
+        files.sort();
+        for f in files {
+            let Ok(text) = std::fs::read_to_string(&f) else { continue };
+            let mut rest = text.as_str();
+            let mut k = 0;
+            while let Some(a) = rest.find("r#\"") {
+                let body = &rest[a + 3..];
+                let Some(e) = body.find("\"#") else { break };
+                let snip = &body[..e];
+                if snip.len() >= 12 && snip.len() <= 4000 {
+                    out.push((format!("{}#{k}", f.file_name().and_then(|n| n.to_str()).unwrap_or("")), snip.to_string()));
+                    k += 1;
+                }
+                rest = &body[e + 2..];
+            }
+        }
+    }
+    out
+}
+
 fn nest(kind: usize, d: usize) -> (String, &'static str) {
     let wrap = |body: String| format!("PROGRAM P\nVAR x : INT; b : BOOL; a : ARRAY[0..3] OF INT; END_VAR\n{body}\nEND_PROGRAM\n");
     match kind {
@@ -384,6 +411,28 @@ pub fn run(sh: &mut Shard) {
         }
         let pts = if thorough { 400 } else { 12 };
         run_case(sh, "corpus", path, text.clone(), &mut rng, pts);
+    }
+    // 2b. snippets of the repository's own tests: as is, and with every (quick: up to 24 evenly spread) single non-trivia
+    //     token deleted or doubled, alone and behind another top-level item (error recovery inside every construct)
+    let snippets = test_snippets();
+    sh.count("test_snippets_scraped", if shard == 0 { snippets.len() as u64 } else { 0 });
+    for (i, (label, text)) in snippets.iter().enumerate() {
+        if i % nshards != shard {
+            continue;
+        }
+        run_case(sh, "snippet", label, text.clone(), &mut rng, if thorough { 40 } else { 4 });
+        let toks: Vec<(usize, usize)> = lex(text).iter().filter(|t| !t.kind.is_trivia()).map(|t| (u32::from(t.range.start()) as usize, u32::from(t.range.end()) as usize)).collect();
+        let stride = if thorough { 1 } else { (toks.len() / 24).max(1) };
+        let offset = if thorough { 0 } else { rng.usize(stride) };
+        for (a, b) in toks.iter().skip(offset).step_by(stride) {
+            let deleted = format!("{}{}", &text[..*a], &text[*b..]);
+            let doubled = format!("{}{} {}", &text[..*b], &text[*a..*b], &text[*b..]);
+            for (what, t) in [("del", deleted), ("dup", doubled)] {
+                run_case(sh, "snippet-token-mutant", &format!("{label}:{what}@{a}"), format!("FUNCTION F0 : INT F0 := 1; END_FUNCTION\n{t}"), &mut rng, 0);
+                run_case(sh, "snippet-token-mutant", &format!("{label}:{what}@{a}:bare"), t, &mut rng, 0);
+                sh.count("snippet_token_mutants", 2);
+            }
+        }
     }
     // 3. truncation at every char boundary of small corpus files
     let small: Vec<&(String, String)> = corpus.iter().filter(|(_, t)| t.len() <= 4096).collect();
